@@ -34,6 +34,14 @@ Theorem C09_wait_sys_invariant : forall conds s0 s,
 Proof. exact wait_sys_invariant. Qed.
 Print Assumptions C09_wait_sys_invariant.
 
+(* the run loops of the link thread (regenerated facts): each of KeyboardInterrupt, IOError and the three
+   sec errors is caught by a handler whose first action that can raise is self.terminate(<constant>) *)
+Theorem C09_run_loops_terminate :
+  map fst run_loop_handled = ["run_as_initiator"; "run_as_target"]%string /\
+  forallb (fun e => forallb (fun c => existsb (String.eqb c) (snd e)) required_handled) run_loop_handled = true.
+Proof. exact run_loops_terminate. Qed.
+Print Assumptions C09_run_loops_terminate.
+
 (* non-vacuity: the skeleton of the repaired RawAccessPoint.recv passes; the one of the unrepaired
    method (state test before the lock is taken) is rejected *)
 Definition unrepaired_raw_recv : stmt :=
